@@ -1,6 +1,6 @@
 /* proof unit for ec_make and ec_exec of /repo/ex.c (":make", ":!").
  * MECHANICAL EXTRACTION (redone on every run by run.py, unit key "extract"): ex.c's preprocessor
- * lines, the verbatim text of the functions named in the unit (ec_make, ec_exec, ec_print, ec_rs), and a prototype for every other static function
+ * lines, the verbatim text of the functions named in the unit (ec_make, ec_exec, ec_print, ec_rs, ec_undo, ec_redo), and a prototype for every other static function
  * (bodies dropped); everything else of ex.c is dropped.  sprintf / snprintf (variadic) are routed to
  * three-argument stubs that check the destination against the length of what is formatted. */
 #include "pre.h"
